@@ -450,10 +450,10 @@ def apiRegister (s : Sess) (h : HId) (proc : Uri) (opts : Option RegOpts) (snd :
     (fun id => { typ := .register, req := id, opts := optAttrs RegOpts.attrs opts, uri := proc })
     true snd
 
-/-- the subscription id under which the (active) `Subscription` object `obj` is attached -/
-def findSub (obj : FutId) : List (SubId × List SubRec) → Option SubId
-  | [] => none
-  | (sid, l) :: r => if l.any (·.obj == obj) then some sid else findSub obj r
+/-- the subscription id under which the (active) `Subscription` object `obj` is attached (`subscription.id`; a
+`Subscription` is active iff it is in the list its id maps to) -/
+def findSub (obj : FutId) (subs : List (SubId × List SubRec)) : Option SubId :=
+  (akeys subs).find? (fun sid => ((alookup sid subs).getD []).any (·.obj == obj))
 
 /-- `list.remove(subscription)`: the first (only) occurrence -/
 def removeObj (obj : FutId) : List SubRec → List SubRec
